@@ -1112,3 +1112,92 @@ Theorem copy_x_shape : forall used pgused t ids t' u' pu' rest,
   well_kinded t -> (forall r, In r (rows t) -> pgs_ok r) -> NoDup (keys_of t') ->
   erase t' = erase t.
 Proof. intros used pgused t. apply copy_x_shape_all. Qed.
+
+(* the same for a copy within one workspace *)
+Lemma combine_map_forall2 {A B C} (R : A -> C -> Prop) (f : A * B -> C) : forall l js, length l = length js ->
+  (forall a b, R a (f (a, b))) -> Forall2 R l (map f (combine l js)).
+Proof.
+  induction l as [|a r IH]; intros [|j js] H HR; simpl in *; try discriminate; constructor; [apply HR | apply IH; [congruence | exact HR]].
+Qed.
+
+Lemma map_fst_combine {A B} (l : list A) (js : list B) : length l = length js -> map fst (combine l js) = l.
+Proof.
+  revert js. induction l as [|a r IH]; intros [|j js] H; simpl in *; try discriminate; [reflexivity|]. f_equal. apply IH. congruence.
+Qed.
+
+Definition sub_shape_ok (t : tree) : Prop := forall ids t' rest,
+  copy_sub t ids = Some (t', rest) ->
+  well_kinded t -> (forall r, In r (rows t) -> pgs_ok r) -> NoDup (keys_of t') ->
+  erase t' = erase t.
+
+Lemma copy_list_shape : forall l, Forall sub_shape_ok l -> forall ids l' rest,
+  copy_list l ids = Some (l', rest) ->
+  Forall well_kinded l -> (forall r, In r (flat_map rows l) -> pgs_ok r) -> NoDup (flat_map keys_of l') ->
+  map erase l' = map erase l.
+Proof.
+  intros l H. induction H as [|c r Hc Hr IH]; intros ids l' rest E Hwk Hpg Hnd; simpl in E.
+  - inversion E; subst. reflexivity.
+  - destruct (copy_sub c ids) as [[c' ids']|] eqn:E1; [|discriminate].
+    destruct (copy_list r ids') as [[r' ids'']|] eqn:E2; [|discriminate]. inversion E; subst.
+    inversion Hwk as [|? ? W1 W2]; subst. simpl in Hnd. apply nodup_app_iff in Hnd. destruct Hnd as [N1 [N2 _]].
+    simpl. f_equal.
+    + eapply Hc; [exact E1 | exact W1 | | exact N1]. intros r0 Hr0. apply Hpg. simpl. apply in_or_app. left. exact Hr0.
+    + eapply IH; [exact E2 | exact W2 | | exact N2]. intros r0 Hr0. apply Hpg. simpl. apply in_or_app. right. exact Hr0.
+Qed.
+
+Theorem copy_sub_shape_all t : sub_shape_ok t.
+Proof.
+  induction t as [k a l IH] using tree_ind'. intros ids t' rest E Hwk Hpg Hnd. rewrite copy_sub_eq in E.
+  destruct ids as [|i ids1]; [discriminate|]. destruct (fst k) eqn:Ek.
+  - destruct (copy_list l ids1) as [[l' ids2]|] eqn:El; [|discriminate]. inversion E; subst.
+    destruct (wk_group _ _ _ Hwk Ek) as [Ha Hl]. simpl. rewrite Ek, Ha. f_equal.
+    eapply copy_list_shape; [exact IH | exact El | exact Hl | |].
+    + intros r0 Hr0. apply Hpg. rewrite rows_eq. right. exact Hr0.
+    + rewrite keys_of_eq in Hnd. inversion Hnd; assumption.
+  - unfold copy_obj in E. destruct (Nat.ltb (length ids1) (length l + length (apgs a))) eqn:Elt; [discriminate|].
+    apply Nat.ltb_ge in Elt. inversion E; subst t' rest. clear E.
+    set (kid_ids := firstn (length l) ids1) in *. set (pg_ids := firstn (length (apgs a)) (skipn (length l) ids1)) in *.
+    assert (Hlk : length l = length kid_ids) by (unfold kid_ids; symmetry; apply firstn_length_le; lia).
+    assert (Hlp : length (apgs a) = length pg_ids) by (unfold pg_ids; symmetry; apply firstn_length_le; rewrite skipn_length; lia).
+    set (L := combine l kid_ids) in *.
+    apply obj_shape with (pairs := map (fun '(c, j) => (tkey c, (KD, j))) L).
+    + exact Ek.
+    + simpl in Hwk. rewrite Ek in Hwk. exact Hwk.
+    + apply combine_map_forall2; [exact Hlk|]. intros c j. exists j. reflexivity.
+    + rewrite map_map. transitivity (map tkey (map fst L)).
+      * rewrite map_map. apply map_ext. intros [c j]. reflexivity.
+      * unfold L. rewrite map_fst_combine by exact Hlk. reflexivity.
+    + rewrite !map_map. apply map_ext. intros [c j]. reflexivity.
+    + apply combine_map_forall2; [exact Hlp|]. intros g j. split; reflexivity.
+    + rewrite keys_of_eq in Hnd. inversion Hnd as [|? ? _ Hn2]; subst. apply nodup_tkeys. exact Hn2.
+    + intros g m Hg Hm. destruct (Hpg (k, a, map tkey l)) as [_ [_ G3]]; [rewrite rows_eq; left; reflexivity|].
+      apply (G3 g m Hg Hm).
+  - inversion E; subst. simpl in Hwk. rewrite Ek in Hwk. destruct Hwk as [Ha Hl]. subst l. simpl. rewrite Ek, Ha. reflexivity.
+Qed.
+
+Theorem copy_sub_shape : forall t ids t' rest,
+  copy_sub t ids = Some (t', rest) ->
+  well_kinded t -> (forall r, In r (rows t) -> pgs_ok r) -> NoDup (keys_of t') ->
+  erase t' = erase t.
+Proof. intros t. apply copy_sub_shape_all. Qed.
+
+(* the copies of the demo history really have the shape of their sources *)
+Lemma wops_demo_shape :
+  let W := wrun (firstn 7 wops_demo) winit in
+  match find (KG, 1%N) (wmem (wa W)), find (KG, 30%N) (wmem (wb (wrun (firstn 8 wops_demo) winit))) with
+  | Some s, Some c => erase c = erase s
+  | _, _ => False
+  end.
+Proof. vm_compute. reflexivity. Qed.
+
+(* with fresh drawn identifiers the uniqueness hypothesis on the copy is automatic *)
+Theorem copy_x_shape_fresh : forall used pgused t ids t' u' pu' rest,
+  copy_x used pgused t ids = Some (t', u', pu', rest) ->
+  well_kinded t -> (forall r, In r (rows t) -> pgs_ok r) ->
+  cx_pre used pgused (map snd (keys_of t)) (all_pg_ids t) ids ->
+  erase t' = erase t.
+Proof.
+  intros used pgused t ids t' u' pu' rest E Hwk Hpg Hpre.
+  destruct (cx_facts t _ _ _ _ _ _ _ _ _ E (fun y H => H) (fun y H => H) Hpg Hpre) as [[D [_ [_ [_ [N1 _]]]]] _].
+  eapply copy_x_shape; [exact E | exact Hwk | exact Hpg | eapply NoDup_map_inv; exact N1].
+Qed.
